@@ -102,8 +102,10 @@ func (blockExec *BlockExecutor) CreateProposalBlock(
 
 	evidence, evSize := blockExec.evpool.PendingEvidence(state.ConsensusParams.Evidence.MaxBytes)
 
-	// Fetch a limited amount of valid txs
-	maxDataBytes := types.MaxDataBytes(maxBytes, evSize, state.Validators.Size())
+	// Fetch a limited amount of valid txs. The block carries commit, which was
+	// signed by state.LastValidators: its size depends on the number of
+	// signatures in it, not on the size of the current validator set.
+	maxDataBytes := types.MaxDataBytes(maxBytes, evSize, commit.Size())
 
 	txs := blockExec.mempool.ReapMaxBytesMaxGas(maxDataBytes, maxGas)
 
